@@ -228,6 +228,7 @@ deriving DecidableEq, Repr
 
 structure Cfg where
   paths : List HPath := []            -- all host paths in creation order
+  hosts : List Str := []              -- hosts acquired by rules and tls blocks, in creation order
   tls : List (Str × Crt) := []        -- hosts with a tls entry and the certificate assigned first
   backends : List Backend := []       -- in creation order
   dfltBackend : Option BKey := none
@@ -349,16 +350,18 @@ def splitOnC (sep : Char) : Str → List Str
       | [] => [[c]]
       | x :: xs => (c :: x) :: xs
 
-/-- `buildResourceName` for a certificate secret + `GetTLSSecretPath`; any error = default certificate -/
+/-- `buildResourceName` for a certificate secret: `name` is read in the namespace of the ingress,
+`ns/name` only in that namespace unless cross-namespace reading is allowed -/
+def secretRef (w : World) (ns secret : Str) : Option (Str × Str) :=
+  match splitOnC '/' secret with
+  | [n] => some (ns, n)
+  | [a, n] => if a.isEmpty then some (ns, n) else if a = ns ∨ w.opts.crossNsSecret then some (a, n) else none
+  | _ => none
+
+/-- `addTLS` + `GetTLSSecretPath`; any error = default certificate -/
 def crtOf (w : World) (ns secret : Str) : Crt :=
   if secret.isEmpty then .dflt else
-  let parts := splitOnC '/' secret
-  let target : Option (Str × Str) :=
-    match parts with
-    | [n] => some (ns, n)
-    | [a, n] => if a.isEmpty then some (ns, n) else if a = ns ∨ w.opts.crossNsSecret then some (a, n) else none
-    | _ => none
-  match target with
+  match secretRef w ns secret with
   | none => .dflt
   | some (a, n) =>
     match w.secs.find? (fun s => s.ns = a ∧ s.name = n) with
@@ -372,9 +375,17 @@ def addTLSHost (crt : Crt) (t : List (Str × Crt)) (h : Str) : List (Str × Crt)
 def addTLS (w : World) (ns : Str) (t : List (Str × Crt)) (b : TLSSpec) : List (Str × Crt) :=
   b.hosts.foldl (addTLSHost (crtOf w ns b.secret)) t
 
+/-- `AcquireHost` -/
+def addHost (l : List Str) (h : Str) : List Str := if l.contains h then l else l ++ [h]
+
+/-- hosts an ingress acquires: one per rule (also when none of its paths is accepted), then the
+hosts of the tls blocks.  (The `<default>` host acquired by an accepted `spec.defaultBackend` is not
+listed: it never gets a crt-list line.) -/
+def hostsOfIng (i : Ingress) : List Str := i.rules.map (fun r => normHost r.host) ++ i.tls.flatMap (·.hosts)
+
 def syncIngress (w : World) (c : Cfg) (i : Ingress) : Cfg :=
   let c := (declsOf i).foldl (addDecl w) c
-  { c with tls := i.tls.foldl (addTLS w i.ns) c.tls }
+  { c with tls := i.tls.foldl (addTLS w i.ns) c.tls, hosts := (hostsOfIng i).foldl addHost c.hosts }
 
 /-- `sortIngress`: creation time, then `namespace/name` -/
 def ingKey (i : Ingress) : Str := i.ns ++ '/' :: i.name
@@ -484,6 +495,13 @@ def hostsOfPaths (l : List HPath) : List Str := C04.hostsOf (insEntries (rulesOf
 def Cfg.iter0 (c : Cfg) : Iter :=
   ⟨hostsOfPaths (httpPaths c), hostsOfPaths (httpsPaths c), hostsOfPaths (dfltPaths c)⟩
 
+/-- the iteration order "hostnames sorted" (what `rebuildMatchFiles` would use if it iterated the
+hosts of a map in a stable order) -/
+def sortedHosts (l : List HPath) : List Str := sortBy ltStr (hostsOfPaths l)
+
+def Cfg.iterSorted (c : Cfg) : Iter :=
+  ⟨sortedHosts (httpPaths c), sortedHosts (httpsPaths c), sortedHosts (dfltPaths c)⟩
+
 /-! ## crt-list (C15) -/
 
 /-- one line of `_front_bind_crt.list` after the default line: certificate and SNI filter -/
@@ -492,9 +510,33 @@ structure CrtLine where
   filter : Str
 deriving DecidableEq, Repr
 
-/-- `WriteFrontendMaps`: one line per host (sorted by name, `<default>` excluded) whose certificate
-is not the default one -/
+/-- certificate assigned to a host (`TLSFilename`, the default one when there is no tls entry) -/
+def Cfg.crtOfHost (c : Cfg) (h : Str) : Crt := ((c.tls.find? (·.1 = h)).map (·.2)).getD .dflt
+
+/-- `*.rest` for `label.rest` (`none`: no dot, or the name starts with a dot) -/
+def wildOf (s : Str) : Option Str :=
+  let rest := s.dropWhile (· ≠ '.')
+  if rest.isEmpty ∨ s.head? = some '.' then none else some ('*' :: rest)
+
+/-- `"*" + hostname[pos:]` of `wildcardHasCustomCrt` (`none` also when the host is itself a wildcard) -/
+def wildHost (h : Str) : Option Str := if h.head? = some '*' then none else wildOf h
+
+/-- `config.wildcardHasCustomCrt` (repair c836d74): the host is covered by a wildcard host that has
+its own certificate (such a wildcard host is in the host list because it has a tls entry) -/
+def Cfg.wildcardHasCustomCrt (c : Cfg) (h : Str) : Bool :=
+  match wildHost h with
+  | none => false
+  | some wc => c.crtOfHost wc ≠ .dflt
+
+/-- `WriteFrontendMaps` (after the default line `!*`): one line per host (sorted by name,
+`<default>` excluded) whose certificate is not the default one or which is covered by a wildcard
+host with its own certificate -/
 def crtList (c : Cfg) : List CrtLine :=
+  ((sortBy ltStr (c.hosts.filter (· ≠ dfltHost))).filter
+    (fun h => c.crtOfHost h ≠ .dflt || c.wildcardHasCustomCrt h)).map fun h => ⟨c.crtOfHost h, h⟩
+
+/-- the code before repair c836d74: lines only for hosts with a certificate of their own -/
+def crtListBefore (c : Cfg) : List CrtLine :=
   ((sortBy (fun (a b : Str × Crt) => ltStr a.1 b.1) (c.tls.filter fun t => t.1 ≠ dfltHost)).filter
     (fun t => t.2 ≠ .dflt)).map fun t => ⟨t.2, t.1⟩
 
@@ -507,10 +549,11 @@ def sniCrt (l : List CrtLine) (sni : Str) : Crt :=
   match l.find? (fun e => !isWild e.filter && lower e.filter = s) with
   | some e => e.crt
   | none =>
-    let rest := s.dropWhile (· ≠ '.')
-    if rest.isEmpty ∨ s.head? = some '.' then .dflt else
-    match l.find? (fun e => lower e.filter = '*' :: rest) with
-    | some e => e.crt
+    match wildOf s with
     | none => .dflt
+    | some wc =>
+      match l.find? (fun e => lower e.filter = wc) with
+      | some e => e.crt
+      | none => .dflt
 
 end HapVerif.Sync
